@@ -150,4 +150,74 @@ theorem keyword_prefix_ident_counterexample :
     collectLoop, binRule, ruleOfTok, Tok.opSpelling, Gen.binaryOpAlts, spells, Gen.opSpellings, prattParse,
     expr, nud, loop, lbp]
 
+/-! ### the laws named in the property text, on the TEXTS themselves (`parseText` = lexer + `parseToks`) -/
+
+private theorem vA : Atom (.var "a") (.word "a") := Atom.var "a" (by decide) (by decide)
+private theorem vB : Atom (.var "b") (.word "b") := Atom.var "b" (by decide) (by decide)
+private theorem vC : Atom (.var "c") (.word "c") := Atom.var "c" (by decide) (by decide)
+private theorem vX : Atom (.var "x") (.word "x") := Atom.var "x" (by decide) (by decide)
+private theorem i1 : Atom (.int 1) (.int "1") := Atom.int "1" (by decide)
+private theorem i2 : Atom (.int 2) (.int "2") := Atom.int "2" (by decide)
+
+theorem text_of_toks {s : String} {ts : List Tok} {t : PExp} (hl : lex s.toList = .ok ts) (hp : parseToks ts = .ok t) :
+    parseText s.toList = .ok t := by
+  simp [parseText, hl, hp]
+
+/-- `a -> b <-> c` is `a -> (b <-> c)` -/
+theorem text_implies_iff :
+    parseText "a -> b <-> c".toList = .ok (.bin .implies (.var "a") (.bin .iff (.var "b") (.var "c"))) :=
+  text_of_toks (by decide) (implies_then_iff vA vB vC)
+
+/-- `a <-> b -> c` is `(a <-> b) -> c` -/
+theorem text_iff_implies :
+    parseText "a <-> b -> c".toList = .ok (.bin .implies (.bin .iff (.var "a") (.var "b")) (.var "c")) :=
+  text_of_toks (by decide) (iff_then_implies vA vB vC)
+
+/-- the keyword spelling reads the same: `a implies b iff c` -/
+theorem text_implies_iff_keywords :
+    parseText "a implies b iff c".toList = parseText "a -> b <-> c".toList := by
+  rw [text_implies_iff]
+  exact text_of_toks (ts := [.word "a", .word "implies", .word "b", .word "iff", .word "c"]) (by decide)
+    (by simpa [binTokS, docLevel, docRightAssoc] using operator_pair .implies .iff false false vA vB vC)
+
+/-- `-a * b` is `(-a) * b` and `not a and b` is `(not a) and b` -/
+theorem text_unary_tighter :
+    parseText "-a * b".toList = .ok (.bin .mul (.un .neg (.var "a")) (.var "b"))
+    ∧ parseText "not a and b".toList = .ok (.bin .and (.un .not (.var "a")) (.var "b"))
+    ∧ parseText "!a && b".toList = .ok (.bin .and (.un .not (.var "a")) (.var "b")) :=
+  ⟨text_of_toks (ts := [.minus, .word "a", .star, .word "b"]) (by decide)
+     (by simpa [binTokS, unTokS] using unary_binds_tightest .neg .mul false false vA vB),
+   text_of_toks (ts := [.word "not", .word "a", .word "and", .word "b"]) (by decide)
+     (by simpa [binTokS, unTokS] using unary_binds_tightest .not .and false false vA vB),
+   text_of_toks (ts := [.bang, .word "a", .ampamp, .word "b"]) (by decide)
+     (by simpa [binTokS, unTokS] using unary_binds_tightest .not .and true true vA vB)⟩
+
+/-- `2x`, `2(x+1)` and `(a)(b)c` are single factors: `a / 2x = a / (2*x)`, `a / 2(x+1) = a / (2*(x+1))`,
+`a / (a)(b)c = a / ((a*b)*c)` -/
+theorem text_implicit_products :
+    parseText "a / 2x".toList = .ok (.bin .div (.var "a") (.bin .mul (.int 2) (.var "x")))
+    ∧ parseText "a / 2(x+1)".toList = .ok (.bin .div (.var "a") (.bin .mul (.int 2) (.bin .add (.var "x") (.int 1))))
+    ∧ parseText "a / (a)(b)c".toList = .ok (.bin .div (.var "a") (.bin .mul (.bin .mul (.var "a") (.var "b")) (.var "c"))) := by
+  have h2 : digitsToNat "2".toList ≤ i64Max := by decide
+  refine ⟨text_of_toks (ts := [.word "a", .slash, .int "2", .word "x"]) (by decide) ?_,
+    text_of_toks (ts := [.word "a", .slash, .int "2", .lpar, .word "x", .plus, .int "1", .rpar]) (by decide) ?_,
+    text_of_toks (ts := [.word "a", .slash, .lpar, .word "a", .rpar, .lpar, .word "b", .rpar, .word "c"]) (by decide) ?_⟩
+  · have := implicit_product_single_factor .div false vA (Juxt.int h2 Juxt.nil) (VarTail.var "x" (by decide)) (by simp)
+    simpa [binTokS, mulAll, digitsToNat] using this
+  · have hx : Tk (.bin .add (.var "x") (.int 1)) ([.word "x"] ++ .plus :: [.int "1"]) _ :=
+      Tk.bin (Tk.atom vX) (Tk.atom i1) (Or.inl rfl) (Or.inl rfl) (by simp [binToks] : Tok.plus ∈ binToks .add)
+    have := implicit_product_single_factor .div false vA (Juxt.int h2 (Juxt.paren hx Juxt.nil)) VarTail.none (by simp)
+    simpa [binTokS, mulAll, digitsToNat] using this
+  · have := implicit_product_single_factor .div false vA
+      (Juxt.paren (Tk.atom vA) (Juxt.paren (Tk.atom vB) Juxt.nil)) (VarTail.var "c" (by decide)) (by simp)
+    simpa [binTokS, mulAll] using this
+
+/-- identifiers that merely start with a keyword: `android + nothing` are two variables … -/
+theorem text_keyword_prefixed :
+    parseText "android + nothing".toList = .ok (.bin .add (.var "android") (.var "nothing")) :=
+  text_of_toks (ts := [.word "android", .plus, .word "nothing"]) (by decide)
+    (by simpa [binTokS, docLevel] using
+      parse_tk (Tk.bin (Tk.atom (Atom.var "android" (by decide) (by decide))) (Tk.atom (Atom.var "nothing" (by decide) (by decide)))
+        (Or.inl rfl) (Or.inl rfl) (by simp [binToks] : Tok.plus ∈ binToks .add)))
+
 end Rooc.Props.C09
